@@ -1,1 +1,226 @@
-fn main() { println!("hello"); }
+//! jxlsim — deterministic simulation harness for jxl-oxide (see /verif/DESIGN.md).
+mod bits;
+mod checks;
+mod harness;
+mod hexbytes;
+mod jxlgen;
+mod observe;
+mod rng;
+mod simio;
+
+use harness::{Stats, Tier, Violation};
+use std::io::Write;
+
+fn arg<'a>(args: &'a [String], name: &str) -> Option<&'a str> {
+    args.iter().position(|a| a == name).and_then(|i| args.get(i + 1)).map(|s| s.as_str())
+}
+
+fn main() {
+    let args: Vec<String> = std::env::args().collect();
+    let code = match args.get(1).map(|s| s.as_str()) {
+        Some("run") => cmd_run(&args),
+        Some("replay") => cmd_replay(&args),
+        Some("gen-selftest") => cmd_gen_selftest(&args),
+        Some("scenario-dump") => {
+            let tier = if arg(&args, "--tier") == Some("thorough") { Tier::Thorough } else { Tier::Quick };
+            println!("{}", checks::scenario_json(&args[2], args[3].parse().unwrap(), tier));
+            0
+        }
+        Some("gen-dump") => cmd_gen_dump(&args),
+        _ => {
+            eprintln!("usage: jxlsim run --check <c> --start S --count N --tier quick|thorough --out DIR --worker K [--max-secs T] [--log FILE]\n       jxlsim replay <file>");
+            2
+        }
+    };
+    std::process::exit(code);
+}
+
+fn cmd_run(args: &[String]) -> i32 {
+    let check = arg(args, "--check").expect("--check").to_string();
+    let start: u64 = arg(args, "--start").unwrap_or("0").parse().unwrap();
+    let count: u64 = arg(args, "--count").unwrap_or("100").parse().unwrap();
+    let tier = if arg(args, "--tier") == Some("thorough") { Tier::Thorough } else { Tier::Quick };
+    let out = arg(args, "--out").expect("--out").to_string();
+    let worker: u32 = arg(args, "--worker").unwrap_or("0").parse().unwrap();
+    let max_secs: f64 = arg(args, "--max-secs").unwrap_or("1e9").parse().unwrap();
+    let stride: u64 = arg(args, "--stride").unwrap_or("1").parse().unwrap();
+    let log_path = arg(args, "--log").map(|s| s.to_string());
+    std::fs::create_dir_all(&out).ok();
+    harness::install_panic_hook();
+
+    let cur_path = format!("{out}/cur-{worker}");
+    let mut cur = std::fs::OpenOptions::new().create(true).write(true).truncate(true).open(&cur_path).unwrap();
+    let mut log = log_path.map(|p| std::io::BufWriter::new(std::fs::File::create(p).unwrap()));
+    let t0 = std::time::Instant::now();
+    let mut stats = Stats::default();
+    let mut violations: Vec<Violation> = Vec::new();
+    let mut seeds_done = 0u64;
+    let mut harness_errors: Vec<String> = Vec::new();
+    let mut i = 0u64;
+    while i < count {
+        let seed = start + i * stride;
+        i += 1;
+        if t0.elapsed().as_secs_f64() > max_secs {
+            break;
+        }
+        {
+            use std::os::unix::fs::FileExt;
+            cur.write_all_at(&seed.to_le_bytes(), 0).ok();
+        }
+        let before = stats.evaluations;
+        let r = std::panic::catch_unwind(std::panic::AssertUnwindSafe(|| checks::run_seed(&check, seed, tier, &mut stats)));
+        seeds_done += 1;
+        match r {
+            Ok(Ok(digest)) => {
+                if let Some(l) = &mut log {
+                    writeln!(l, "{seed} {digest:016x}").ok();
+                }
+            }
+            Ok(Err(v)) => {
+                if let Some(l) = &mut log {
+                    writeln!(l, "{seed} VIOLATION {}", v.class).ok();
+                }
+                if !violations.iter().any(|x| x.class == v.class) && violations.len() < 6 {
+                    let v = checks::minimise(&check, v);
+                    violations.push(v);
+                }
+            }
+            Err(p) => {
+                // a panic that escaped the check's own isolation: the harness is at fault unless
+                // the location is inside /repo (then the check did not isolate a decoder call)
+                let loc = harness::last_panic_location();
+                let msg = harness::panic_message(&*p);
+                if harness_errors.len() < 5 {
+                    harness_errors.push(format!("seed {seed}: escaped panic at {loc}: {msg}"));
+                }
+            }
+        }
+        if stats.evaluations == before {
+            stats.evaluations += 0;
+        }
+    }
+    if let Some(l) = &mut log {
+        l.flush().ok();
+    }
+    let result = serde_json::json!({
+        "check": check,
+        "worker": worker,
+        "start": start,
+        "stride": stride,
+        "seeds_done": seeds_done,
+        "wall_s": t0.elapsed().as_secs_f64(),
+        "stats": stats,
+        "violations": violations,
+        "harness_errors": harness_errors,
+    });
+    std::fs::write(format!("{out}/worker-{worker}.json"), serde_json::to_vec(&result).unwrap()).unwrap();
+    std::fs::remove_file(&cur_path).ok();
+    0
+}
+
+fn cmd_replay(args: &[String]) -> i32 {
+    let path = &args[2];
+    harness::install_panic_hook();
+    let text = match std::fs::read_to_string(path) {
+        Ok(t) => t,
+        Err(e) => {
+            eprintln!("cannot read {path}: {e}");
+            return 2;
+        }
+    };
+    let v: Violation = match serde_json::from_str(&text) {
+        Ok(v) => v,
+        Err(e) => {
+            eprintln!("cannot parse {path}: {e}");
+            return 2;
+        }
+    };
+    let mut stats = Stats::default();
+    let r = std::panic::catch_unwind(std::panic::AssertUnwindSafe(|| checks::replay(&v, &mut stats)));
+    match r {
+        Ok(Ok(())) => {
+            println!("NOT-REPRODUCED property={} class={}", v.property, v.class);
+            0
+        }
+        Ok(Err(found)) => {
+            if found.class == v.class {
+                println!("REPRODUCED property={} class={} detail={}", found.property, found.class, found.detail);
+            } else {
+                println!("REPRODUCED-DIFFERENT property={} class={} (recorded {}) detail={}", found.property, found.class, v.class, found.detail);
+            }
+            1
+        }
+        Err(p) => {
+            println!("HARNESS-PANIC at {}: {}", harness::last_panic_location(), harness::panic_message(&*p));
+            2
+        }
+    }
+}
+
+fn decode_oneshot(bytes: &[u8]) -> Result<usize, String> {
+    let sched = simio::ChunkSchedule::whole(bytes.len());
+    let image = checks::common::load_chunked(bytes, &sched, None, jxl_oxide::JxlThreadPool::none())?;
+    if !image.is_loading_done() {
+        return Err(format!("loading not done: frames={}", image.num_loaded_frames()));
+    }
+    let n = image.num_loaded_keyframes();
+    for k in 0..n {
+        let r = image.render_frame(k).map_err(|e| format!("render {k}: {e}"))?;
+        let _ = r.image_all_channels();
+    }
+    Ok(n)
+}
+
+fn selftest_program(seed: u64) -> jxlgen::Program {
+    let mut rng = rng::Rng::new(rng::derive(seed, 1, 0));
+    let cfg = if seed % 3 == 0 { jxlgen::random::GenConfig::medium() } else { jxlgen::random::GenConfig::small() };
+    let cfg = cfg.swarm(&mut rng);
+    jxlgen::random::random_program(&mut rng, &cfg)
+}
+
+fn cmd_gen_selftest(args: &[String]) -> i32 {
+    harness::install_panic_hook();
+    let a: u64 = args[2].parse().unwrap();
+    let b: u64 = args[3].parse().unwrap();
+    let mut errs = std::collections::BTreeMap::<String, (usize, u64)>::new();
+    let mut ok = 0;
+    for seed in a..b {
+        let prog = selftest_program(seed);
+        let (bytes, _map) = match prog.encode() {
+            Ok(x) => x,
+            Err(e) => {
+                errs.entry(format!("ENCODE {e}")).or_insert((0, seed)).0 += 1;
+                continue;
+            }
+        };
+        match std::panic::catch_unwind(|| decode_oneshot(&bytes)) {
+            Ok(Ok(_)) => ok += 1,
+            Ok(Err(e)) => errs.entry(e).or_insert((0, seed)).0 += 1,
+            Err(_) => {
+                if std::env::var("PRINT_PANIC_SEEDS").is_ok() {
+                    println!("PANICSEED {seed} {}", harness::last_panic_location());
+                }
+                errs.entry("PANIC".into()).or_insert((0, seed)).0 += 1
+            }
+        }
+    }
+    println!("ok={ok}");
+    for (e, (n, s)) in errs {
+        println!("{n:6} first_seed={s} {e}");
+    }
+    0
+}
+
+fn cmd_gen_dump(args: &[String]) -> i32 {
+    let seed: u64 = args[2].parse().unwrap();
+    let prog = selftest_program(seed);
+    println!("{}", serde_json::to_string_pretty(&prog).unwrap());
+    if let Ok((bytes, map)) = prog.encode() {
+        println!("{} bytes; map={:?}", bytes.len(), map);
+        if let Some(p) = args.get(3) {
+            std::fs::write(p, &bytes).unwrap();
+        }
+        println!("{:?}", decode_oneshot(&bytes));
+    }
+    0
+}
